@@ -614,7 +614,7 @@ def m_sv_new(ex, c, args, m): return SVec()
 def m_sv_insert(ex, c, args, m):
     v = dd(args[0]); i = conc(args[1])
     if i > len(v.items): raise Panic('insertion index out of bounds')
-    if len(v.items) >= int(m.group(1)): raise Unsupported('model: SmallVec inline capacity exceeded')
+    if len(v.items) >= int(m.group(1)) and not getattr(ex, 'smallvec_unbounded', False): raise Unsupported('model: SmallVec inline capacity exceeded')
     v.items.insert(i, args[2]); return Unit()
 @M.add(r'^SmallVec::<\[.*; (\d+)\]>::push$')
 def m_sv_push(ex, c, args, m):
@@ -1099,3 +1099,22 @@ M.consts[r'^(std::iter::|core::iter::)?Empty::<'] = lambda ex, body: It([])
 
 @M.add(r'^(std::ops::)?RangeInclusive::<.*>::new$')
 def m_range_incl(ex, c, args, m): return Struct({0: args[0], 1: args[1] + 1}, 'Range(inclusive)')
+
+@M.add(r'^<(usize|u32|u64) as Ord>::(min|max)$')
+def m_int_minmax(ex, c, args, m):
+    a, b = args
+    return z3.If(z3.ULE(a, b), a, b) if m.group(2) == 'min' else z3.If(z3.UGE(a, b), a, b)
+
+@M.add(r'^core::slice::<impl \[.*\]>::(split_at|split_at_mut)$')
+def m_split_at(ex, c, args, m):
+    sl = args[0]
+    if isinstance(sl, Ref): v = dd(sl); sl = SliceRef(v.items, 0, len(v.items))
+    i = conc(args[1])
+    if i > len(sl): raise Panic('mid > len')
+    return tup(SliceRef(sl.lst, sl.start, sl.start + i), SliceRef(sl.lst, sl.start + i, sl.end))
+@M.add(r'^core::slice::<impl \[.*\]>::(split_first|split_last)$')
+def m_split_first(ex, c, args, m):
+    sl = args[0]
+    if len(sl) == 0: return none()
+    if m.group(1) == 'split_first': return some(tup(Ref(sl.lst, sl.start), SliceRef(sl.lst, sl.start + 1, sl.end)))
+    return some(tup(Ref(sl.lst, sl.end - 1), SliceRef(sl.lst, sl.start, sl.end - 1)))
